@@ -88,6 +88,73 @@ fn psbt_tap_rawpkh(out: &mut Out, with_origin: bool) {
     }
 }
 
+/// Non-ASCII text at every position of valid-looking inputs, to every `FromStr` entry point:
+/// parsers slice by byte offsets, and a multi-byte character at a sliced offset panics unless
+/// the input was rejected (or char boundaries are respected) first.
+fn non_ascii_stream(out: &mut Out, thorough: bool) {
+    use miniscript::descriptor::{DefiniteDescriptorKey, DescriptorPublicKey, DescriptorSecretKey};
+    use miniscript::policy::{Concrete, Semantic};
+    use miniscript::{Descriptor, Miniscript, Segwitv0, Tap};
+    use std::str::FromStr;
+    const XPUB: &str = "xpub661MyMwAqRbcFtXgS5sYJABqqG9YLmC4Q1Rdap9gSE8NqtwybGhePY2gZ29ESFjqJoCu1Rupje8YtGqsefD265TMg7usUDFdp6W1EGMcet8";
+    const XPRV: &str = "xprv9s21ZrQH143K3QTDL4LXw2F7HEK3wJUD2nW2nRk4stbPy6cq3jPPqjiChkVvvNKmPGJxWUtg6LnF5kejMRNNU3TGtRBeJgk33yuGBxrMPHi";
+    const PK: &str = "03c57b973499cb87c1409b29b475185b624c6abb8421f003246f1ede275d367af4";
+    const XO: &str = "c57b973499cb87c1409b29b475185b624c6abb8421f003246f1ede275d367af4";
+    let bases: Vec<String> = vec![
+        PK.into(), XO.into(), format!("[d34db33f/44'/0'/0']{}", PK), format!("[d34db33f/44h/0h]{}/1/*", XPUB),
+        format!("{}/<0;1>/*", XPUB), format!("[d34db33f]{}/0'/*h", XPRV), XPRV.into(),
+        "L4rK1yDtCWekvXuE6oXD9jCYfFNV2cWRpVuPLBcCU2z8TrisoyY1".into(),
+        format!("wpkh({})", PK), format!("wsh(and_v(v:pk({}),older(10)))", PK), format!("tr({},{{pk({}),pk({})}})", XO, XO, PK),
+        format!("sh(wsh(multi(1,{},{})))#abcdefgh", PK, PK), "and_v(v:pk(A),or_d(pk(B),older(10)))".into(),
+        "or(9@pk(A),1@and(pk(B),after(100)))".into(), "thresh(2,pk(A),pk(B),older(5))".into(),
+    ];
+    let mut inputs: Vec<String> = vec![];
+    for u in ["é", "€", "😀"] {
+        for n in [0usize, 1, 2, 3, 31, 32, 33, 61, 62, 63, 64, 65, 66, 67, 109, 110, 111, 112, 127, 128, 129, 130] {
+            inputs.push(format!("{}{}", u, "a".repeat(n)));
+            inputs.push(format!("{}{}", u, "0".repeat(n)));
+            inputs.push(format!("{}{}", "0".repeat(n), u));
+            inputs.push(format!("[d34db33f/44'/0'/0']{}{}", u, "0".repeat(n)));
+            inputs.push(format!("[{}{}]{}", u, "0".repeat(n.min(12)), PK));
+        }
+        for b in &bases {
+            let chars: Vec<char> = b.chars().collect();
+            let step = if thorough { 1 } else { (chars.len() / 40).max(1) };
+            let mut pos: Vec<usize> = (0..chars.len()).step_by(step).collect();
+            for p in [0usize, 1, 2, 3, chars.len().saturating_sub(1), chars.len().saturating_sub(2)] { pos.push(p.min(chars.len().saturating_sub(1))); }
+            // around every structural character
+            for (i, c) in chars.iter().enumerate() { if "[]/()<>;,'#*@{}".contains(*c) { pos.push(i); if i + 1 < chars.len() { pos.push(i + 1); } if i > 0 { pos.push(i - 1); } } }
+            pos.sort(); pos.dedup();
+            for p in pos {
+                let mut r = chars.clone(); r.splice(p..p + 1, u.chars()); inputs.push(r.iter().collect());
+                let mut r = chars.clone(); r.splice(p..p, u.chars()); inputs.push(r.iter().collect());
+            }
+        }
+    }
+    inputs.sort(); inputs.dedup();
+    out.note("non_ascii_inputs", inputs.len().to_string());
+    macro_rules! probe { ($name:expr, $ty:ty, $s:expr) => {{
+        let r = std::panic::catch_unwind(|| <$ty>::from_str($s).is_ok());
+        let at = if r.is_err() { LAST_PANIC.lock().map(|s| s.clone()).unwrap_or_default() } else { "-".into() };
+        let verdict = match r { Err(_) => "PANIC", Ok(_) => "OK" };
+        if verdict != "OK" || out.n_lines % 97 == 0 {
+            out.line(&format!("J nopanic nonascii {} {} at={} {}", $name, crate::c10::hex($s), at, if verdict == "OK" { "OK" } else { "PANIC" }), "ok");
+        } else { out.count(concat!("nonascii ok ", $name)); }
+    }}; }
+    for s in &inputs {
+        probe!("DescriptorPublicKey", DescriptorPublicKey, s);
+        probe!("DescriptorSecretKey", DescriptorSecretKey, s);
+        probe!("DefiniteDescriptorKey", DefiniteDescriptorKey, s);
+        probe!("Descriptor<DescriptorPublicKey>", Descriptor<DescriptorPublicKey>, s);
+        probe!("Descriptor<String>", Descriptor<String>, s);
+        probe!("Miniscript<String,Segwitv0>", Miniscript<String, Segwitv0>, s);
+        probe!("Miniscript<DescriptorPublicKey,Tap>", Miniscript<DescriptorPublicKey, Tap>, s);
+        probe!("Concrete<String>", Concrete<String>, s);
+        probe!("Concrete<DescriptorPublicKey>", Concrete<DescriptorPublicKey>, s);
+        probe!("Semantic<String>", Semantic<String>, s);
+    }
+}
+
 fn bx(n: Node) -> Box<Node> { Box::new(n) }
 
 pub fn run(out: &mut Out, thorough: bool, seed: u64) {
@@ -131,6 +198,7 @@ pub fn run(out: &mut Out, thorough: bool, seed: u64) {
     }
     psbt_tap_rawpkh(out, true);
     psbt_tap_rawpkh(out, false);
+    non_ascii_stream(out, thorough);
     // 3. panic sweep over the other modules
     out.sweep = true;
     crate::c04::run(out, thorough, seed);
